@@ -4,6 +4,7 @@ import (
 	"encoding/json"
 	"fmt"
 	"math/rand"
+	"os"
 	"regexp"
 	"runtime"
 	"runtime/debug"
@@ -400,7 +401,7 @@ func RunSeq(sc SeqScenario) (evs []Ev, inconclusive string) {
 		time.Sleep(100 * time.Millisecond)
 		in.Disarm()
 	}
-	if !in.WaitFor(T, quiet) {
+	if !in.WaitFor(T, quiet) && !idleStall(in, s) {
 		if ps := cl.Panics(); len(ps) > 0 {
 			in.Log(Ev{"tr": sc.Tr, "e": "panic", "where": "engine goroutine (recovered)", "msg": ps[0]})
 			in.Log(Ev{"tr": sc.Tr, "e": "quiesce"})
@@ -585,4 +586,36 @@ func runConcSync(sc SeqScenario, in *Inst, s *streamsql.Streamsql) []Ev {
 		}
 	}
 	return evs
+}
+
+// idleStall reports that the instance has come to rest although the driver's accounting does not add up (e.g. the engine merged or lost
+// batches): every queue of the engine is empty and no hook counter has moved for 3 s. The run is then conclusive - the monitor decides.
+func idleStall(in *Inst, s *streamsql.Streamsql) bool {
+	snap := func() (int64, bool) {
+		in.mu.Lock()
+		sum := int64(0)
+		for _, k := range []string{"proc.item", "proc.batch", "cw.add", "cw.row", "gw.add", "gw.row", "tw.add", "sw.add", "ss.add"} { // (periodic hooks keep ticking)
+			sum += in.count[k]
+		}
+		in.mu.Unlock()
+		st := s.GetStats()
+		empty := st["data_chan_len"] == 0 && st["sink_pool_len"] == 0 && st["bufferUsed"] == 0 // (the result channel keeps what nobody reads)
+		return sum, empty
+	}
+	last, empty := snap()
+	if !empty {
+		if os.Getenv("VH_DEBUG") != "" {
+			fmt.Fprintf(os.Stderr, "idleStall: queues not empty: %v\n", s.GetStats())
+		}
+		return false
+	}
+	for i := 0; i < 30; i++ {
+		time.Sleep(100 * time.Millisecond)
+		cur, e := snap()
+		if !e || cur != last {
+			return false
+		}
+	}
+	in.Stuck = false
+	return true
 }
